@@ -49,7 +49,9 @@ def gen_cases(rng, tier):
     for ns in (1, 2):
         for ws in (False, True):
             cases.append({"kind": "noop", "spec": gen_third_party(rng, is_fd=True, nsides=ns, max_files=2), "with_source": ws})
-    return cases, {"random": n, "1- and 2-sided emulator images": 4}
+    # more files than a catalogue holds, given to both tools: payloads stay identical sector for sector, free sectors included
+    cases.append({"kind": "pair", "verbose": False, "sources": [{"arg": "p%03d.d" % k, "content": {"pat": "5a", "len": 1 + 255 * (k % 2)}} for k in range(114)]})
+    return cases, {"random": n, "1- and 2-sided emulator images": 4, "114 files to both tools": 1}
 
 
 def run_case(case, ctx):
